@@ -438,7 +438,12 @@ class VNCDoToolClient(rfb.RFBClient):
         size = (width, height)
         update = Image.frombytes("RGB", size, data, "raw", self.image_mode)
         if not self.screen:
-            self.screen = update
+            if x or y:
+                # the first update does not start at the origin
+                self.screen = Image.new("RGB", (x + width, y + height), "black")
+                self.screen.paste(update, (x, y))
+            else:
+                self.screen = update
         # track upward screen resizes, often occurs during os boot of VMs
         # When the screen is sent in chunks (as observed on VMWare ESXi), the canvas
         # needs to be resized to fit all existing contents and the update.
